@@ -33,6 +33,9 @@ type Gen struct {
 	sb       strings.Builder
 	labels   int
 	Feat     map[string]int // productions used (for the evidence distribution)
+	// NoExprNewlines: no line breaks inside expressions / argument lists (C25: layout instabilities of the printer,
+	// finding C25-5, depend on them)
+	NoExprNewlines bool
 	// EmbedUnqualified: also generate `interface { A; ... }` (finding C24-1 class; parses only with the fix)
 	EmbedUnqualified bool
 }
@@ -68,7 +71,7 @@ func (g *Gen) sp() {
 
 // nl: after an operator / comma / opening bracket a newline is allowed too
 func (g *Gen) spnl(ind int) {
-	if g.R.Intn(14) == 0 {
+	if g.R.Intn(14) == 0 && !g.NoExprNewlines {
 		g.w("\n" + strings.Repeat("\t", ind+1))
 	} else if g.Comments && g.R.Intn(40) == 0 {
 		g.w(" /* c */ ")
@@ -359,7 +362,7 @@ func (g *Gen) compositeLit(d int, c ectx) {
 			}
 		case 1:
 			g.exprList(d-1, inner, 0, 3)
-			if g.R.Intn(4) == 0 {
+			if g.R.Intn(4) == 0 && !g.NoExprNewlines {
 				g.w(",\n" + strings.Repeat("\t", c.ind))
 			}
 		}
@@ -465,7 +468,7 @@ func (g *Gen) primary(d int, c ectx) {
 			}
 			g.w("...")
 		}
-		if n > 0 && g.R.Intn(8) == 0 {
+		if n > 0 && g.R.Intn(8) == 0 && !g.NoExprNewlines {
 			g.w(",\n" + strings.Repeat("\t", c.ind))
 		}
 		g.w(")")
@@ -874,7 +877,14 @@ func (g *Gen) stmt(d, ind int, loops []string, last bool) {
 		if g.R.Bool() {
 			g.w("t := ")
 		}
+		// `&T{}.(type)` is &(T{}.(type)): not a type switch guard; parenthesise an operand that starts with an operator
+		mark := g.sb.Len()
 		g.primary(1, h)
+		if s := g.sb.String(); mark < len(s) && strings.ContainsRune("&*-+!^<", rune(s[mark])) {
+			tail := s[mark:]
+			g.sb.Reset()
+			g.sb.WriteString(s[:mark] + "(" + tail + ")")
+		}
 		g.w(".(type) {\n")
 		nc := g.R.Intn(4)
 		for i := 0; i < nc; i++ {
